@@ -17,6 +17,22 @@ class BrokenCheck(Exception):
     """the machinery itself cannot run (exit 2): not a verdict"""
 
 
+import contextlib, fcntl
+
+
+@contextlib.contextmanager
+def lean_lock():
+    """serialises everything that writes or reads the Lean build directory and the generated files across check processes
+    that run at the same time (two `lake build`s in one package directory trip over each other's files)"""
+    os.makedirs(os.path.join(VERIF, "work"), exist_ok=True)
+    with open(os.path.join(VERIF, "work", ".lean.lock"), "w") as h:
+        fcntl.flock(h, fcntl.LOCK_EX)
+        try:
+            yield
+        finally:
+            fcntl.flock(h, fcntl.LOCK_UN)
+
+
 def sh(cmd, cwd=None, env=None, timeout=None):
     e = dict(os.environ)
     e["CARGO_NET_OFFLINE"] = "true"
@@ -39,7 +55,8 @@ def build_harness():
 
 def run_extractor():
     """-> (ok, message, status) where status[fragment] = (properties, 'source' | 'executed …' | 'FAILED: …')"""
-    rc, out = sh([sys.executable, os.path.join(VERIF, "tools", "extract.py")])
+    with lean_lock():
+        rc, out = sh([sys.executable, os.path.join(VERIF, "tools", "extract.py")])
     status = {}
     for l in out.splitlines():
         m = re.match(r"FRAGMENT (\w+) \[([^\]]*)\] (.*)", l)
@@ -51,7 +68,8 @@ def run_extractor():
 def run_codegen():
     """re-translate the pure function bodies of /repo/src into lean/BEI/Gen/Code/*.lean (tools/codegen.py);
     -> {unit: {"status": "translated" | "untranslated", "reason": .., "properties": [..]}}"""
-    rc, out = sh([sys.executable, os.path.join(VERIF, "tools", "codegen.py"), "--json"])
+    with lean_lock():
+        rc, out = sh([sys.executable, os.path.join(VERIF, "tools", "codegen.py"), "--json"])
     try:
         return json.loads(out.strip().splitlines()[-1])
     except Exception:
@@ -74,7 +92,8 @@ def audit_bridge(unit, workdir):
         h.write(f"import BEI.Bridge.{unit}\n")
         for n in names:
             h.write(f"#print axioms {n}\n")
-    rc, out = sh(["lake", "env", "lean", f], cwd=LEAN, timeout=1800)
+    with lean_lock():
+        rc, out = sh(["lake", "env", "lean", f], cwd=LEAN, timeout=1800)
     res = {}
     for m in re.finditer(r"'([^']+)' (does not depend on any axioms|depends on axioms: \[([^\]]*)\])", out.replace("\n", " ")):
         ax = [] if m.group(3) is None else [a.strip() for a in m.group(3).split(",") if a.strip()]
@@ -109,7 +128,12 @@ def theorem_names(prop_id):
 
 
 def lake_build(targets):
-    rc, out = sh(["lake", "build"] + targets, cwd=LEAN, timeout=3600)
+    with lean_lock():
+        rc, out = sh(["lake", "build"] + targets, cwd=LEAN, timeout=3600)
+        if rc != 0 and ("no such file or directory" in out or "resource busy" in out):
+            # a transient file-system error (another process touched the build directory): not a verdict, build again
+            time.sleep(1)
+            rc, out = sh(["lake", "build"] + targets, cwd=LEAN, timeout=3600)
     return rc == 0, out
 
 
@@ -123,7 +147,8 @@ def audit_axioms(prop_id):
         h.write(f"import BEI.Props.{prop_id}\n")
         for n in names:
             h.write(f"#print axioms {n}\n")
-    rc, out = sh(["lake", "env", "lean", f], cwd=LEAN, timeout=1800)
+    with lean_lock():
+        rc, out = sh(["lake", "env", "lean", f], cwd=LEAN, timeout=1800)
     res = {}
     cur = None
     # output: "'name' depends on axioms: [a, b]" or "'name' does not depend on any axioms"
